@@ -385,6 +385,10 @@ impl Runner {
                     Kind::Rec => w!(assets_manager::RecursiveDirectory<world::Leaf>),
                 };
                 if let Some((watcher, last_id)) = got {
+                    // start from a clean global flag (the asset may have been cached and re-loaded within one step)
+                    if !self.watches.is_empty() {
+                        let _ = world::typed_reloaded_global(any, key.0, &key.1);
+                    }
                     self.watches.insert(key, Watch { watcher, last_id, growths: 0 });
                 }
             }
@@ -521,6 +525,12 @@ impl Runner {
                 break;
             }
         }
+        // (enhance_hot_reloading mode) the sentinel may have been rewritten between the poll and the test above
+        self.poll_ids();
+        let evs = self.world.take_events();
+        if !evs.is_empty() {
+            self.passes.push(evs);
+        }
         // learn the reloader's thread id from the sentinel's self-read
         if self.reloader_tid.is_none() {
             for p in &self.passes {
@@ -537,6 +547,8 @@ impl Runner {
         let grown: BTreeSet<String> = self.watches.iter().filter(|(k, w)| k.0 == Kind::Leaf && w.growths > 0).map(|(k, _)| k.1.clone()).collect();
         self.world.commit_self_reloads(&|id| grown.contains(id));
         self.refresh_watches();
+        let reloaded: BTreeSet<AKey> = self.watches.iter().filter(|(_, w)| w.growths > 0).map(|(k, _)| k.clone()).collect();
+        self.world.sync_analytic(&self.cached(), &reloaded);
     }
 
     pub fn all_events(&self) -> impl Iterator<Item = &Ev> {
